@@ -41,6 +41,22 @@ def jsonable(x):
 
 
 def main():
+    # a PRIVATE temporary directory for everything the library creates during this run: the twins look for leaked cache files, and a shared
+    # /tmp would make them see (and clean up) files of unrelated processes running at the same time
+    import shutil
+    import tempfile
+    base = os.environ.get("VERIF_OUT") or os.path.join(os.path.dirname(HERE), "out")
+    os.makedirs(base, exist_ok=True)
+    priv = tempfile.mkdtemp(prefix="twin-tmp-", dir=base)
+    tempfile.tempdir = priv
+    os.environ["TMPDIR"] = priv
+    try:
+        _main()
+    finally:
+        shutil.rmtree(priv, ignore_errors=True)
+
+
+def _main():
     req = json.load(open(sys.argv[1]))
     prop, tier, seed = req["property"], req["tier"], req["seed"]
     out = {"property": prop, "evaluations": 0, "distinct_nontrivial": 0, "failures": [], "replays": [], "samples": []}
